@@ -97,6 +97,9 @@ impl Source {
 
                 let mut file = BufWriter::new(file);
                 file.write_all(content.as_bytes())
+                    .map_err(|err| ResourceError::io_error(location, err))?;
+                // dropping the `BufWriter` would flush too, but ignore any error
+                file.flush()
                     .map_err(|err| ResourceError::io_error(location, err))
             }
             Self::Memory(data) => {
